@@ -252,7 +252,7 @@ def malformed_case(rng, mode):
 
 
 def known_shapes(rng, mode):
-    """streams around the known class: fd-less and fd-carrying messages, cut several messages deep"""
+    """streams around the former known class (fixed by e5b20c34): fd-less and fd-carrying messages, cut several messages deep"""
     units = []
     for _ in range(rng.randint(2, 5)):
         if rng.random() < 0.5:
@@ -348,15 +348,13 @@ def search(rng, bad_cases):
 ENABLED = True
 LEVEL = "proof"
 LEVEL_TEXT = ("Theorems in coq/theories/Properties/C14.v over an executable model of ReadHalf::receive_message (both read loops, "
-              "draining of already_received_bytes, the 128 MiB test, the already_received_fds block) and of the SocketReader numbering: "
-              "for every list of valid messages, every handshake cut and EVERY function choosing the size of each recvmsg answer, the reader "
-              "yields exactly those messages, byte-identical, in order, with their own descriptors and sequence numbers 1,2,3,... and ends with "
-              "empty buffers (C14_frames_partial, C14_frames_state; full strength without leftovers: C14_frames_no_leftover); a declared "
-              "size above 128 MiB is rejected in the state reached right after its 16 header bytes (C14_limit, C14_limit_buffered). "
-              "PARTIAL: the statement excludes the known class Known_C14 (handshake read ahead past a descriptor-less message and into a "
-              "descriptor-carrying one), where the real reader fails with MissingParameter: C14_leftover_fd_refuted. The model is tied to the "
-              "code by differential runs of the real receive_message / handshake / SocketReader over a scripted transport, including all "
-              "splits of short streams.")
+              "draining of already_received_bytes, the 128 MiB test, the already_received_fds block as repaired by fix: e5b20c34) and of the "
+              "SocketReader numbering: for every list of valid messages, EVERY handshake cut and EVERY function choosing the size of each recvmsg "
+              "answer, the reader yields exactly those messages, byte-identical, in order, with their own descriptors and sequence numbers "
+              "1,2,3,... and ends with empty buffers (C14_frames, C14_frames_state: full strength, no excluded class); a declared size above "
+              "128 MiB is rejected in the state reached right after its 16 header bytes (C14_limit, C14_limit_buffered); receive_message has no "
+              "panic site for any stream and any oracle (C14_no_panic). The model is tied to the code by differential runs of the real "
+              "receive_message / handshake / SocketReader over a scripted transport, including all splits of short streams.")
 LEVEL_NOTE = ("Trusted: Coq kernel; hand-written model; scripted transport in harness/hconn; header-field parsing is a parameter "
               "(std_fields instance covers standard fields); messages compared by length + 64-bit hash; u64 sequence numbers assumed not to wrap. "
-              "Known finding leftover_fd (C14_leftover_fd_refuted): leftover descriptors + buffered fd-less message => Error::MissingParameter.")
+              "The former finding leftover_fd is fixed (e5b20c34); its witness stays in the corpus and must pass.")
